@@ -45,6 +45,7 @@ type node struct {
 	target   string
 	children map[string]*node
 	ino      uint64
+	special  os.FileMode // extra type bits reported by stat for a KFile node (fifo, socket, device, irregular)
 }
 
 // Phase of a hook invocation.
@@ -355,7 +356,7 @@ func (n *node) mode() os.FileMode {
 	case KLink:
 		return n.perm | os.ModeSymlink
 	}
-	return n.perm
+	return n.perm | n.special
 }
 
 func mkinfo(name string, n *node) *info {
@@ -1308,6 +1309,18 @@ func (f *FS) PlantFile(p string, data []byte, perm os.FileMode, uid, gid int) {
 	n.data = append([]byte(nil), data...)
 	n.durable = append([]byte(nil), data...)
 	n.uid, n.gid, n.ownerSet = uid, gid, true
+	f.plant(p, n)
+}
+
+// PlantSpecial plants an object whose lstat reports the given type bits (os.ModeNamedPipe,
+// os.ModeSocket, os.ModeDevice, os.ModeCharDevice, os.ModeIrregular ...): what a backend over a real
+// file system reports for fifos, sockets, device nodes and objects it cannot classify.
+func (f *FS) PlantSpecial(p string, typeBits os.FileMode, perm os.FileMode) {
+	f.mu.Lock()
+	n := f.newNode(KFile, perm)
+	f.mu.Unlock()
+	n.special = typeBits
+	n.uid, n.gid, n.ownerSet = 0, 0, true
 	f.plant(p, n)
 }
 
